@@ -182,9 +182,14 @@ def r03_2(ctx):
         if not ok:
             ctx.finding(rr, c, f"'{vtxt}' is installed as this barrier's lowering without _chunks_match({vtxt}.chunks, self._chunks) holding and without a rechunk to the frozen chunks", func=f, node=s)
     # the child must be settled (lowered to a fixpoint) before its layout is compared
-    loops = [n for n in body_walk(f.node) if isinstance(n, ast.While) and any(
-        isinstance(c_, ast.Call) and isinstance(c_.func, ast.Attribute) and c_.func.attr in ("lower_once", "lower_completely") for c_ in ast.walk(n))]
-    settled = loops or [n for n in body_walk(f.node) if isinstance(n, ast.Call) and isinstance(n.func, ast.Attribute) and n.func.attr == "lower_completely"]
+    from .common import with_helpers
+
+    loops, direct = [], []
+    for h in with_helpers(f, depth=1):  # the settle loop may live in a private method of the class
+        loops += [n for n in body_walk(h.node) if isinstance(n, ast.While) and any(
+            isinstance(c_, ast.Call) and isinstance(c_.func, ast.Attribute) and c_.func.attr in ("lower_once", "lower_completely") for c_ in ast.walk(n))]
+        direct += [n for n in body_walk(h.node) if isinstance(n, ast.Call) and isinstance(n.func, ast.Attribute) and n.func.attr == "lower_completely"]
+    settled = loops or direct
     rr.inst(f"{f.construct}::settles child before comparing", how=norm(settled[0]) if settled else None)
     if not settled:
         ctx.finding(rr, f"{f.construct}::settles child before comparing", "the frozen layout is compared against an unsettled (not fully lowered) child", func=f)
@@ -223,7 +228,7 @@ def r03_3(ctx):
         rr.inst(site(lay), alias_calls=len(aliases))
         if not aliases:
             ctx.finding(rr, site(lay), "no Alias task emitted", func=lay)
-        loops = [n for n in body_walk(lay.node) if isinstance(n, ast.For)]
+        loops = [n for n in body_walk(lay.node) if isinstance(n, (ast.For, ast.comprehension))]  # a dict comprehension iterates like the loop it replaces
         grid_ok = False
         for lp in loops:
             it = unparse(lp.iter)
